@@ -5,12 +5,10 @@ Model: `Model/Tcp.lean` (`sendStep`/`sendDataLoop`/`sendData`, `getSendParams`, 
 `rcvHandleSegment`, `appRead`), tied to the real stack by the trace correspondence of the TCP world.
 
 Full statement of the sender half: *no transmitted byte lies beyond the right edge of a window the peer has
-offered, and no segment is larger than the peer's MSS or the MTU allows*.  Proved here for everything
-`sendData` transmits (new data, retransmission after a timeout, after an ACK, after a window update): see
-`sendData_within`, `appWrite_within`, `timerEvent_within`.  Not covered by a theorem (`_partial`): the fast
-retransmission `resendSegment`, which re-sends the first write-list entry as it was sent before (it was inside
-the window offered when it was first sent; if the peer has shrunk its window since, it may lie beyond the
-current edge).  The oracle reads "offered" as "ever offered". -/
+offered, and no segment is larger than the peer's MSS or the MTU allows*.  This file proves it for everything
+`sendData` transmits, against the window offered *now* (`sendData_within`, `appWrite_within`, `timerEvent_within`).
+`Props/C04Send.lean` closes it for every reachable state and every transmission, the fast retransmission included,
+against the rightmost edge the peer has ever offered (`sender_window_reachable`, `emitted_within_offered_window`). -/
 namespace Props.C04
 open Model.Tcp Props.TcpLemmas
 
